@@ -912,9 +912,69 @@ def extraction_rules(repo, rep, m):
             continue
         state = {p0: 'raw'}      # raw: binary float carrying decimal fields; safe: rounded / integral / from a string; other names untracked
         found = []               # (node, verdict, text)
+        defs_ = {}
+        for st_ in ast.walk(f.node):
+            if isinstance(st_, ast.Assign) and len(st_.targets) == 1 and isinstance(st_.targets[0], ast.Name):
+                defs_.setdefault(st_.targets[0].id, []).append(st_.value)
+
+        def _scaled(e, depth=0):
+            """the expression multiplies / divides the HP number by something (a product is not exact)"""
+            if depth > 8:
+                return False
+            if isinstance(e, ast.BinOp) and isinstance(e.op, (ast.Mult, ast.Div, ast.Pow)):
+                return True
+            if isinstance(e, ast.Call) and e.args:
+                return _scaled(e.args[0], depth + 1)
+            if isinstance(e, ast.Name) and e.id != p0:
+                return any(_scaled(v_, depth + 1) for v_ in defs_.get(e.id, []))
+            return False
+
+        def _ibound(e, depth=0):
+            """(lo, hi) of a small integer expression: constants, comparisons (0..1), + - of those, numpy.where(c, a, b), names by definition"""
+            if depth > 8:
+                return None
+            if isinstance(e, ast.Constant) and isinstance(e.value, (int, float)) and not isinstance(e.value, bool):
+                return (e.value, e.value)
+            if isinstance(e, ast.Compare):
+                return (0, 1)
+            if isinstance(e, ast.BinOp) and isinstance(e.op, (ast.Add, ast.Sub)):
+                a_, b_ = _ibound(e.left, depth + 1), _ibound(e.right, depth + 1)
+                if a_ is None or b_ is None:
+                    return None
+                return (a_[0] + b_[0], a_[1] + b_[1]) if isinstance(e.op, ast.Add) else (a_[0] - b_[1], a_[1] - b_[0])
+            if isinstance(e, ast.Call) and getattr(e.func, 'attr', getattr(e.func, 'id', '')) == 'where' and len(e.args) == 3:
+                a_, b_ = _ibound(e.args[1], depth + 1), _ibound(e.args[2], depth + 1)
+                return None if a_ is None or b_ is None else (min(a_[0], b_[0]), max(a_[1], b_[1]))
+            if isinstance(e, ast.IfExp):
+                a_, b_ = _ibound(e.body, depth + 1), _ibound(e.orelse, depth + 1)
+                return None if a_ is None or b_ is None else (min(a_[0], b_[0]), max(a_[1], b_[1]))
+            if isinstance(e, ast.Name):
+                bs = [_ibound(v_, depth + 1) for v_ in defs_.get(e.id, [])]
+                if bs and all(b_ is not None for b_ in bs):
+                    return (min(b_[0] for b_ in bs), max(b_[1] for b_ in bs))
+            return None
+
+        def _kbound(e, depth=0):
+            """bounds of k in <frac> * 10 ** k / <frac> * 1e13"""
+            if depth > 8:
+                return None
+            if isinstance(e, ast.Name):
+                bs = [_kbound(v_, depth + 1) for v_ in defs_.get(e.id, [])]
+                return bs[-1] if bs and bs[-1] is not None else None
+            if isinstance(e, ast.BinOp) and isinstance(e.op, ast.Mult):
+                for side in (e.right, e.left):
+                    if isinstance(side, ast.BinOp) and isinstance(side.op, ast.Pow) and isinstance(side.left, ast.Constant) and side.left.value in (10, 10.0):
+                        return _ibound(side.right)
+                    if isinstance(side, ast.Constant) and isinstance(side.value, (int, float)) and side.value > 0:
+                        import math
+                        k_ = math.log10(side.value)
+                        if abs(k_ - round(k_)) < 1e-12:
+                            return (round(k_), round(k_))
+            return None
 
         def kind(e):
-            """'raw' | 'safe' | None for an expression"""
+            """'raw' (the HP number / its magnitude) | 'whole' (its integer part: exact) | 'frac' (raw - whole: exact) | 'fracdigits' (frac times
+            a power of ten: the digits after the point as a number) | 'safe' (rounded / integral / from a string) | None"""
             if isinstance(e, ast.Name):
                 return state.get(e.id)
             if isinstance(e, ast.Constant):
@@ -923,6 +983,22 @@ def extraction_rules(repo, rep, m):
                 fn = e.func.id if isinstance(e.func, ast.Name) else (e.func.attr if isinstance(e.func, ast.Attribute) else '')
                 if fn in ('abs', 'float', 'fabs', 'absolute', 'array', 'asarray') and e.args:
                     return kind(e.args[0])
+                # the integer part of the (unscaled) HP number is its whole degrees: exact, no digit boundary is crossed
+                if fn in ('floor', 'trunc', 'int') and e.args and kind(e.args[0]) == 'raw' and not _scaled(e.args[0]):
+                    found.append((e, 'ok', stmt_text(e)))
+                    return 'whole'
+                # digits of the fraction, rounded to the nearest integer: sound while the power of ten stays within what a double below 512
+                # degrees resolves (13 decimals; 12 from 512 up)
+                zero_places = (fn in ('rint',) and e.args) or (fn in ('round', 'around') and isinstance(e.func, ast.Name) and len(e.args) == 1 and not e.keywords) \
+                    or (fn == 'round' and isinstance(e.func, ast.Attribute) and not e.args and not e.keywords)
+                if zero_places:
+                    inner = e.args[0] if e.args else e.func.value
+                    if kind(inner) == 'fracdigits':
+                        kb = _kbound(inner)
+                        if kb is not None and kb[1] <= 13:
+                            return 'safe'
+                        found.append((e, 'bad', stmt_text(e) + ' (more decimal digits than the double holds)'))
+                        return 'safe'
                 if fn == 'round' and isinstance(e.func, ast.Attribute) and not (isinstance(e.func.value, ast.Name) and e.func.value.id not in state):
                     # (expr).round(n) / tracked_name.round(n) - not np.round(x, n), handled below
                     k = kind(e.func.value)
@@ -948,7 +1024,7 @@ def extraction_rules(repo, rep, m):
                     return 'safe' if k else None
                 if fn == 'divmod' and len(e.args) == 2:
                     k = kind(e.args[0])
-                    if k == 'raw':
+                    if k in ('raw', 'fracdigits', 'frac'):
                         found.append((e, 'bad', stmt_text(e)))
                     elif k == 'safe':
                         found.append((e, 'ok', stmt_text(e)))
@@ -958,8 +1034,15 @@ def extraction_rules(repo, rep, m):
                 return None
             if isinstance(e, ast.BinOp):
                 a, b = kind(e.left), kind(e.right)
+                if isinstance(e.op, ast.FloorDiv) and a == 'raw' and not _scaled(e.left) and isinstance(e.right, ast.Constant) and e.right.value == 1:
+                    found.append((e, 'ok', stmt_text(e)))
+                    return 'whole'
+                if isinstance(e.op, ast.Sub) and a == 'raw' and b == 'whole' and not _scaled(e.left):
+                    return 'frac'
+                if isinstance(e.op, ast.Mult) and 'frac' in (a, b) and 'raw' not in (a, b):
+                    return 'fracdigits'
                 if isinstance(e.op, (ast.FloorDiv, ast.Mod)):
-                    if a == 'raw':
+                    if a in ('raw', 'fracdigits', 'frac'):
                         found.append((e, 'bad', stmt_text(e)))
                     elif a == 'safe':
                         found.append((e, 'ok', stmt_text(e)))
@@ -1008,7 +1091,8 @@ def extraction_rules(repo, rep, m):
             rep.holds('R-DIGITS', key, where(f, f.node), '%s cuts its fields out of the decimal rendering of the HP number' % name)
         elif ok:
             n += 1
-            rep.holds('R-DIGITS', key, where(f, ok[0][0]), '%s extracts its fields from a value rounded to <= 9 decimals after scaling' % name)
+            rep.holds('R-DIGITS', key, where(f, ok[0][0]), '%s extracts its fields from a safely rounded value (<= 9 decimals of the scaled value, or the digits of the exact fraction '
+                      'hp - floor(hp) rounded to an integer of at most 13 places)' % name)
         else:
             # a function that does cut fields (divmod / floor / // / %) of something the rule could not classify is not passed over silently
             cuts = [x for x in ast.walk(f.node) if (isinstance(x, ast.Call) and getattr(x.func, 'id', getattr(x.func, 'attr', '')) in ('divmod', 'floor', 'trunc'))
@@ -1114,6 +1198,32 @@ def method_value_table(repo, rep):
                 rep.holds('R-TABLE', key, where(f0, f0.node), '%s.%s keeps the angle on %d lattice objects (zero degrees, negative sign, whole minutes, a minutes field of 60)' % (cname, '.'.join(chain), n_ok))
 
 
+def _small_bound(e, defs, depth=0):
+    """(lo, hi) of a small integer expression (constants, comparisons as 0..1, sums and differences, numpy.where, names by their definitions)"""
+    if depth > 8:
+        return None
+    if isinstance(e, ast.Constant) and isinstance(e.value, (int, float)) and not isinstance(e.value, bool):
+        return (e.value, e.value)
+    if isinstance(e, ast.Compare):
+        return (0, 1)
+    if isinstance(e, ast.BinOp) and isinstance(e.op, (ast.Add, ast.Sub)):
+        a_, b_ = _small_bound(e.left, defs, depth + 1), _small_bound(e.right, defs, depth + 1)
+        if a_ is None or b_ is None:
+            return None
+        return (a_[0] + b_[0], a_[1] + b_[1]) if isinstance(e.op, ast.Add) else (a_[0] - b_[1], a_[1] - b_[0])
+    if isinstance(e, ast.Call) and getattr(e.func, 'attr', getattr(e.func, 'id', '')) == 'where' and len(e.args) == 3:
+        a_, b_ = _small_bound(e.args[1], defs, depth + 1), _small_bound(e.args[2], defs, depth + 1)
+        return None if a_ is None or b_ is None else (min(a_[0], b_[0]), max(a_[1], b_[1]))
+    if isinstance(e, ast.IfExp):
+        a_, b_ = _small_bound(e.body, defs, depth + 1), _small_bound(e.orelse, defs, depth + 1)
+        return None if a_ is None or b_ is None else (min(a_[0], b_[0]), max(a_[1], b_[1]))
+    if isinstance(e, ast.Name):
+        bs = [_small_bound(st.value, defs, depth + 1) for st in defs.get(e.id, []) if isinstance(st, ast.Assign)]
+        if bs and all(b_ is not None for b_ in bs):
+            return (min(b_[0] for b_ in bs), max(b_[1] for b_ in bs))
+    return None
+
+
 def vector_validator_rule(repo, rep):
     """the vectorised HP-to-decimal conversion is an HP-to-decimal conversion: a minutes or seconds field of 60 or more must be rejected with an
     error as hp2dec does (sibling rule), not silently carried into the degrees.  Structural: hp2dec_v raises under a test of both fields."""
@@ -1167,12 +1277,63 @@ def vector_validator_rule(repo, rep):
                         todo.append(x.id)
                     if isinstance(x, ast.Call) and isinstance(x.func, ast.Attribute) and x.func.attr == 'round' and x.args and isinstance(x.args[0], ast.Constant):
                         rounds.append(x.args[0].value)
-        if rounds and max(rounds) >= 10:
-            rep.holds('R-FORMAT', key2, where(f, f.node), 'the validated fields are cut at %d decimals of the scaled value below 512 degrees (13 decimals of the HP value, as hp2dec reads them)' % max(rounds))
+        # the other way to the digits: the exact fraction hp - floor(hp) times 10**k, rounded to an integer
+        frac_k = None
+        mentions_512 = False
+        for v in reach:
+            for st in defs.get(v, []):
+                if st.lineno >= test_line:
+                    continue
+                for x in ast.walk(st.value):
+                    if isinstance(x, ast.Constant) and x.value == 512:
+                        mentions_512 = True
+                    if isinstance(x, ast.BinOp) and isinstance(x.op, ast.Pow) and isinstance(x.left, ast.Constant) and x.left.value in (10, 10.0):
+                        b_ = _small_bound(x.right, defs)
+                        if b_ is not None and (frac_k is None or b_[1] > frac_k[1]):
+                            frac_k = b_
+        whole_split = any(isinstance(x, ast.BinOp) and isinstance(x.op, ast.FloorDiv) and isinstance(x.right, ast.Constant) and x.right.value == 1 for x in ast.walk(f.node)) or \
+            any(isinstance(x, ast.Call) and getattr(x.func, 'attr', getattr(x.func, 'id', '')) in ('floor', 'trunc') for x in ast.walk(f.node))
+        # the choice between 13 and 12 decimals is made PER ELEMENT: a reduction over the array (.all() / .any() / max) or a Python
+        # conditional picks one resolution for all of them - one element of 512 degrees or more makes a 13-decimal value next to it
+        # validate at 12, where seconds of 59.999999999 round to 60
+        reduced = None
+        for v in reach:
+            for st in defs.get(v, []):
+                if st.lineno >= test_line:
+                    continue
+                for x in ast.walk(st.value):
+                    if isinstance(x, ast.Call) and getattr(x.func, 'attr', getattr(x.func, 'id', '')) in ('all', 'any', 'max', 'min', 'amax', 'amin') and any(
+                            isinstance(y, ast.Constant) and y.value == 512 for y in ast.walk(x)):
+                        reduced = x
+                    if isinstance(x, ast.IfExp) and any(isinstance(y, ast.Constant) and y.value == 512 for y in ast.walk(x.test)):
+                        reduced = reduced or x
+        if not rounds and frac_k is not None and whole_split and reduced is not None:
+            rep.violated('R-FORMAT', key2, where(f, reduced), 'the number of decimals read is chosen ONCE for the whole array (`%s`): with one element of 512 degrees or more every element is '
+                         'validated at 12 decimals - hp2dec_v(numpy.array([0.0059999999999, 600.0])) rejects the first value (seconds 59.999999999), which is valid and accepted on its own' % stmt_text(reduced)[:60],
+                         expected='the resolution chosen element by element (12 + (mag < 512))', actual=stmt_text(reduced)[:80])
+        elif not rounds and frac_k is not None and whole_split:
+            if frac_k == (12, 13) and mentions_512:
+                rep.holds('R-FORMAT', key2, where(f, f.node), 'the validated fields are the digits of the exact fraction hp - floor(hp), read at 13 decimals below 512 degrees and 12 from there: '
+                          'the resolution hp2dec reads its decimal rendering with')
+            elif frac_k[1] > 13:
+                rep.violated('R-FORMAT', key2, where(f, f.node), 'hp2dec_v reads %d decimal digits of the fraction: more than a double near 512 degrees holds (13)' % frac_k[1],
+                             expected='13 decimals below 512 degrees, 12 from there', actual='%s decimals' % (frac_k,))
+            else:
+                rep.violated('R-FORMAT', key2, where(f, f.node), 'hp2dec_v validates the digits of the fraction at %s decimals for every magnitude: below 512 degrees an HP value carries 13 '
+                             '(seconds of 59.999999999 are valid and would round to 60 at 12), from 512 degrees the double resolves 12' % (frac_k,),
+                             expected='13 decimals below 512 degrees, 12 from there', actual='%s decimals' % (frac_k,))
         elif rounds:
-            rep.violated('R-FORMAT', key2, where(f, f.node), 'hp2dec_v validates fields cut at %d decimals of the scaled value (12 decimals of the HP value): hp2dec_v(numpy.array([12.3459999999999])) - '
-                         'minutes 34, seconds 59.999999999, valid and accepted by hp2dec - is rejected because the seconds round to 60' % max(rounds),
-                         expected='validation on .round(10) below 512 degrees', actual='.round(%d)' % max(rounds))
+            # fields validated on a rounded PRODUCT abs(hp) * 1000: the product is not exact, and whatever the number of decimals kept some
+            # valid values are pushed over a field boundary
+            if max(rounds) >= 10:
+                rep.violated('R-FORMAT', key2, where(f, f.node), 'hp2dec_v validates fields cut from the rounded product abs(hp) * 1000 at %d decimals: from 262.144 degrees up the product times '
+                             '1e10 passes 2^51 and the rounding lifts a seconds field of 59.999999999 to 60 - hp2dec_v(numpy.array([262.3059999999999])) raises although the value is valid '
+                             'HP (hp2dec returns 262.51666666666637)' % max(rounds), expected='the digits of the exact fraction hp - floor(hp), 13 decimals below 512 degrees',
+                             actual='.round(%d) of the scaled value' % max(rounds))
+            else:
+                rep.violated('R-FORMAT', key2, where(f, f.node), 'hp2dec_v validates fields cut at %d decimals of the scaled value (12 decimals of the HP value): hp2dec_v(numpy.array([12.3459999999999])) - '
+                             'minutes 34, seconds 59.999999999, valid and accepted by hp2dec - is rejected because the seconds round to 60' % max(rounds),
+                             expected='13 decimals of the HP value below 512 degrees', actual='.round(%d)' % max(rounds))
         else:
             rep.undecided('R-FORMAT', key2, where(f, f.node), 'no rounding found on the way to the validated fields')
     else:
